@@ -213,3 +213,17 @@ Theorem C11_uniq_from_any_state : forall c s h,
   NoDup (map l_cid (tbl s)) -> Uniq (tbl s) -> Uniq (tbl (fst (run c s h))).
 Proof. exact uniq_from_any_state. Qed.
 Print Assumptions C11_uniq_from_any_state.
+
+(* The configuration value domain.  For every raw configuration that (Config).New accepts — any form of
+   Config.DNSServer, any Mode, any accepted prefixes — a restart with the SAME configuration on the file the
+   first handler left finds the configuration unchanged (configChanged compares normalised values on both
+   sides) and restores the saved bindings: no binding is lost, so (C11_restart_expiry, C11_uniq_after_restart)
+   a still running lease is not handed to another client. *)
+Theorem C11_restart_same_config_keeps_table : forall r c pre saved,
+  new_cfg r = Some c ->
+  c_sub c = wanted c /\
+  sub_changed (wanted c) (c_sub c) = false /\
+  loaded_cfg (c_sub c) c = c /\
+  tbl (restart_state (c_sub c) c pre saved) = restore c (sess_pre c pre) saved.
+Proof. exact restart_same_config_keeps_table. Qed.
+Print Assumptions C11_restart_same_config_keeps_table.
